@@ -283,7 +283,7 @@ func (cs *ContractSet) LoadFile(path, pkgPath string) error {
 			if err != nil {
 				return err
 			}
-			if f := strings.Fields(where); len(f) == 2 && (f[0] == "after" || f[0] == "before" || (f[0] == "at" && f[1] == "end")) {
+			if f := strings.Fields(where); len(f) == 2 && (f[0] == "after" || f[0] == "before" || (f[0] == "at" && (f[1] == "end" || f[1] == "return" || f[1] == "lastreturn"))) {
 				// anchored at the top-level statement that first defines/assigns the named variable
 				if cur.NamedAsserts == nil {
 					cur.NamedAsserts = map[string][]*Clause{}
